@@ -346,6 +346,10 @@ func runC06(c *Ctx) {
 	// ---- R3
 	c.membersCallTeardown("R3")
 	// Connected() is the flag
+	r.Rule("R14", "a refused Connect leaves an existing connection fully working: no function from which the connect routine is reachable by plain calls (Connect, ConnectTo, their context variants), and nothing they call on the caller's goroutine short of the event dispatch, calls the teardown")
+	c.connectNeverTearsDownRule("R14")
+	r.Rule("R13", "handlers can ask: every event (DISCONNECTED included) is dispatched with no library lock held - the must-lockset at every call of the fan-out function and of a handler-set dispatch is empty (shared with C07.R7), so Connected(), Connect and Close called from a handler return")
+	c.noLocksAtDispatchRule("R13")
 	r.Rule("R12", "Connected() agrees with the events because it IS the flag: every return of Connected() returns the connected flag loaded under a blocking acquisition of the connection mutex - no constant answer (a TryLock that gives up says 'false' while REGISTER or CONNECTED handlers run)")
 	if cf := c.Func(c.Client, "(*Conn).Connected"); r.Anchor("R12", "(*Conn).Connected", cf != nil) {
 		nRet := 0
@@ -801,6 +805,31 @@ func (c *Ctx) isCtxDoneChan(ch ssa.Value) bool {
 }
 
 func isTimerChan(ch ssa.Value) bool {
+	if ct, ok := ch.(*ssa.ChangeType); ok {
+		return isTimerChan(ct.X) // converted to a receive-only channel
+	}
+	if pr, ok := ch.(*ssa.Parameter); ok {
+		// a tick channel handed to an unexported loop helper: a timer channel at every call
+		fn := pr.Parent()
+		if fn == nil || fn.Object() == nil || fn.Object().Exported() || fn.Prog == nil {
+			return false
+		}
+		idx := -1
+		for i, q := range fn.Params {
+			if q == pr {
+				idx = i
+			}
+		}
+		n := 0
+		okAll := true
+		for _, pkgFn := range paramCallers(fn) {
+			n++
+			if idx < 0 || idx >= len(pkgFn.Common().Args) || !isTimerChan(pkgFn.Common().Args[idx]) {
+				okAll = false
+			}
+		}
+		return okAll && n > 0
+	}
 	if call, ok := ch.(*ssa.Call); ok {
 		n := calleeName(&call.Call)
 		return n == "time.After" || n == "time.Tick"
@@ -1640,6 +1669,8 @@ func runC07(c *Ctx) {
 	c.queuesReplacedAtConnectRule("R10")
 	r.Rule("R11", "registration is sent on every connection as configured: no function run on behalf of a connection (connection goroutines, teardown, built-in handlers, and all they call) stores to a field of Config other than the client's own record Me - a password or server cleared after use is missing from every later registration")
 	c.configKeptRule("R11")
+	r.Rule("R12", "a reconnect from the DISCONNECTED handler is unaffected by the rest of the old teardown: after the DISCONNECTED dispatch the teardown stores nothing and calls no function of the library (generalises R10 to every per-connection datum: capability sets, SASL state, queues)")
+	c.nothingAfterDisconnectedRule("R12")
 
 	// ---- R5
 	c.goCensus("R5", tf)
@@ -2106,6 +2137,25 @@ func (c *Ctx) noLocksAtDispatchRule(rule string) {
 		r.Add(rule, fmt.Sprintf("dispatch-unlocked:%s#%d", c.FuncKey(fn), n), c.InstrPos(cs), c.FuncKey(fn), "handlers are dispatched with no library lock held", len(held) == 0, fmt.Sprintf("held: %v", held))
 	}
 	r.Floor(rule, "dispatch sites of handler sets", n, 3)
+	// ... and at every call of the fan-out function itself (the must-lockset on entry to it is the intersection
+	// over its callers: one caller holding a lock would be hidden there)
+	nc := 0
+	for _, cs := range c.Callers(c.A.ConnDispatch) {
+		fn := cs.Parent()
+		if ls.Dead[fn] {
+			continue
+		}
+		nc++
+		var held []string
+		for l, m := range ls.At[cs] {
+			if m != 0 {
+				held = append(held, l)
+			}
+		}
+		sort.Strings(held)
+		r.Add(rule, fmt.Sprintf("event-unlocked:%s#%d", c.FuncKey(fn), nc), c.InstrPos(cs), c.FuncKey(fn), "an event is dispatched with no library lock held", len(held) == 0, fmt.Sprintf("held: %v (a handler that asks Connected(), connects or closes never returns)", held))
+	}
+	r.Floor(rule, "call sites of the fan-out function", nc, 3)
 	// the dispatch machinery itself takes no lock but the handler set's (a lock taken on some paths only escapes the
 	// must-lockset above; a dispatch that takes one cannot be re-entered from a handler it is running)
 	a := c.A
@@ -2436,4 +2486,109 @@ func (c *Ctx) freshChanResult(call *ssa.Call, idx, depth int) bool {
 		}
 	})
 	return ok && n > 0
+}
+
+// connectNeverTearsDownRule: C06.R14. A Connect that is refused leaves the
+// existing connection fully working: nothing the connect API does on the
+// caller's goroutine (every function from which the connect routine is
+// reachable by plain calls, and everything those call, other than the built-in
+// handlers run by the REGISTER dispatch) calls the teardown. A ConnectTo that
+// "switches servers" by closing first turns a refused second Connect into a
+// disconnect plus a second REGISTER.
+func (c *Ctx) connectNeverTearsDownRule(rule string) {
+	r, a := c.R, c.A
+	// the connect API: functions that reach the connect routine by plain calls
+	api := map[*ssa.Function]bool{a.Connect: true}
+	for changed := true; changed; {
+		changed = false
+		for _, fn := range c.clientFuncs() {
+			if api[fn] {
+				continue
+			}
+			for _, cs := range CallSites(fn) {
+				if _, isCall := cs.(*ssa.Call); !isCall || cs.Common().IsInvoke() {
+					continue
+				}
+				if sc := cs.Common().StaticCallee(); sc != nil && api[sc] {
+					api[fn] = true
+					changed = true
+				}
+			}
+		}
+	}
+	var roots []*ssa.Function
+	for fn := range api {
+		roots = append(roots, fn)
+	}
+	sort.Slice(roots, func(i, j int) bool { return c.FuncKey(roots[i]) < c.FuncKey(roots[j]) })
+	reach := c.Closure(roots, func(from *ssa.Function, e Edge) bool {
+		if e.Kind == EdgeGo || e.Callee == a.ConnDispatch || e.Callee == a.SetDispatch {
+			return false
+		}
+		return c.InModuleFn(e.Callee) && e.Callee != a.Teardown && e.Callee != a.TeardownCore
+	})
+	n, bad := 0, 0
+	for _, fn := range reach.Order {
+		if !c.InModuleFn(fn) {
+			continue
+		}
+		n++
+		for _, cs := range CallSites(fn) {
+			if _, isGo := cs.(*ssa.Go); isGo {
+				continue
+			}
+			for _, e := range c.Callees(cs) {
+				if e.Callee == a.Teardown || e.Callee == a.TeardownCore {
+					bad++
+					r.Add(rule, "connect-tears-down:"+c.FuncKey(fn), c.InstrPos(cs), c.FuncKey(fn), "the connect API never ends a connection", false, "calls the teardown [reached via "+c.ChainString(reach.Funcs[fn])+"]")
+				}
+			}
+		}
+	}
+	r.Add(rule, "connect-never-tears-down", "-", "", fmt.Sprintf("none of the %d functions run by the connect API on the caller's goroutine calls the teardown", n), bad == 0, fmt.Sprintf("%d calls", bad))
+	r.Floor(rule, "functions of the connect API", len(api), 3)
+}
+
+// paramCallers: the static call sites of an unexported function inside its own
+// package (enough to see what a loop helper is handed).
+func paramCallers(fn *ssa.Function) []ssa.CallInstruction {
+	var out []ssa.CallInstruction
+	if fn.Pkg == nil {
+		return nil
+	}
+	for _, m := range fn.Pkg.Members {
+		var fns []*ssa.Function
+		switch t := m.(type) {
+		case *ssa.Function:
+			fns = append(fns, t)
+		case *ssa.Type:
+			for _, tt := range []types.Type{t.Type(), types.NewPointer(t.Type())} {
+				ms := fn.Prog.MethodSets.MethodSet(tt)
+				for i := 0; i < ms.Len(); i++ {
+					if f := fn.Prog.MethodValue(ms.At(i)); f != nil && f.Pkg == fn.Pkg {
+						fns = append(fns, f)
+					}
+				}
+			}
+		}
+		for _, f := range fns {
+			all := append([]*ssa.Function{f}, f.AnonFuncs...)
+			for _, g := range all {
+				for _, cs := range CallSites(g) {
+					if cs.Common().StaticCallee() == fn {
+						dup := false
+						for _, o := range out {
+							if o == cs {
+								dup = true
+							}
+						}
+						if !dup {
+							out = append(out, cs)
+						}
+					}
+				}
+			}
+		}
+	}
+	return out
 }
